@@ -311,6 +311,7 @@ CONSTANTS
   Dev = {ALL_DEV}
 INVARIANT TypeOK
 INVARIANT AgreeUnlessFired
+INVARIANT RepairedAgrees
 INVARIANT Supported
 PROPERTY TMonotone
 CHECK_DEADLOCK FALSE
@@ -477,10 +478,12 @@ def wf_cfg(spec: str, dev: str, stages: int, runs: int, extra: str) -> str:
             f"{extra}CHECK_DEADLOCK FALSE\n")
 
 
-INVS = ("VIEW View\nINVARIANT TypeOK\nINVARIANT {agree}\nINVARIANT Supported\nINVARIANT RbIdempotent\n"
+INVS = ("VIEW View\nINVARIANT TypeOK\nINVARIANT {agree}\nINVARIANT RepairedAgrees\nINVARIANT Supported\n"
+        "INVARIANT RbIdempotent\n"
         "PROPERTY Monotone\nPROPERTY NameLocal\n")
 SH_ALL = '{"fork", "call", "ufork", "uret", "merge1", "rb"}'
 SH_CORE = '{"fork", "call", "ufork", "merge1", "rb"}'
+SH_MID = '{"fork", "call", "ufork", "uret", "ufork2", "merge1", "rb", "rbnew"}'
 SH_WIDE = '{"fork", "call", "ufork", "uret", "ufork2", "merge1", "merge2", "rb", "rbnew"}'
 
 
@@ -497,49 +500,46 @@ def run(ctx: Ctx) -> None:
     # ---- 1. model checking --------------------------------------------------------------------
     one, two = '{"a"}', '{"a", "b"}'
     K1, UK, C1, C2 = '{"1"}', '{"a"}', '{"c1"}', '{"c1", "c2"}'
-    # (a) the machine as built: flags = reference until a deviation fires
-    main = [("as-built, 5 ops, all shapes", handles_cfg("Spec", one, K1, UK, C2, 3, 5, ALL_DEV, SH_ALL,
-                                                        INVS.format(agree="AgreeUnlessFired"))),
-            ("as-built, 6 ops, core shapes", handles_cfg("Spec", one, K1, UK, C1, 3, 6, ALL_DEV, SH_CORE,
-                                                         INVS.format(agree="AgreeUnlessFired")))]
-    if not ctx.quick:
-        main += [("as-built, 6 ops, all shapes", handles_cfg("Spec", one, K1, UK, C2, 3, 6, ALL_DEV, SH_ALL,
-                                                             INVS.format(agree="AgreeUnlessFired"))),
-                 ("as-built, 5 ops, two names, wide shapes",
-                  handles_cfg("Spec", two, K1, UK, C1, 3, 5, ALL_DEV, SH_WIDE,
-                              INVS.format(agree="AgreeUnlessFired")))]
+    # (a) the machine as built: flags = reference until a deviation fires; the repaired machine
+    #     (same run, variable mfix) equals the reference on every history
+    inv = INVS.format(agree="AgreeUnlessFired")
+    SH_6 = '{"fork", "call", "ufork", "merge1", "rb"}'
+    if ctx.quick:
+        main = [("5 ops, all shapes", handles_cfg("Spec", one, K1, UK, C1, 3, 5, ALL_DEV, SH_ALL, inv)),
+                ("6 ops, forks/user forks/calls/merges/rollbacks, depth 2",
+                 handles_cfg("Spec", one, K1, UK, C1, 2, 6, ALL_DEV, SH_6, inv)),
+                ("4 ops, two names, chained user forks, rollback of unrecorded states",
+                 handles_cfg("Spec", two, K1, UK, C1, 3, 4, ALL_DEV, SH_MID, inv))]
     else:
-        main += [("as-built, 4 ops, two names, wide shapes",
-                  handles_cfg("Spec", two, K1, UK, C1, 3, 4, ALL_DEV, SH_WIDE,
-                              INVS.format(agree="AgreeUnlessFired")))]
+        main = [("6 ops, all shapes", handles_cfg("Spec", one, K1, UK, C2, 3, 6, ALL_DEV, SH_ALL, inv)),
+                ("6 ops, depth 4, no user forks",
+                 handles_cfg("Spec", one, K1, UK, C2, 4, 6, ALL_DEV, '{"fork", "call", "merge1", "merge2", "rb"}', inv)),
+                ("5 ops, two names, wide shapes", handles_cfg("Spec", two, K1, UK, C1, 3, 5, ALL_DEV, SH_WIDE, inv))]
     for what, cfg in main:
-        res = expect_clean(run_tlc("seq/Handles.tla", cfg, ctx.scratch, timeout=1500, heap="8g"), what)
+        res = expect_clean(run_tlc("seq/Handles.tla", cfg, ctx.scratch, workers=ctx.pick(8, "auto"), timeout=1500,
+                                   heap="8g"), what)
         ctx.add_tlc(res)
         _dbg(ctx, f"{what}: {res.distinct} states")
-    # (b) the repaired machine equals the reference on every history
-    res = expect_clean(run_tlc("seq/Handles.tla",
-                               handles_cfg("Spec", one, K1, UK, C2, 3, ctx.pick(5, 6), "{}", SH_ALL,
-                                           INVS.format(agree="Agree")),
-                               ctx.scratch, timeout=1500, heap="8g"), "repaired machine = reference")
-    ctx.add_tlc(res)
-    # (c) model-level controls: each deviation alone breaks Agree
+    # (b) model-level controls: each deviation alone breaks Agree
+    ctl = {D1: handles_cfg("Spec", one, K1, UK, C1, 3, 3, '{"%s"}' % D1, '{"fork", "call", "ufork", "rb"}',
+                           "VIEW View\nINVARIANT Agree\n"),
+           D2: handles_cfg("Spec", one, K1, UK, C1, 3, 6, '{"%s"}' % D2, '{"fork", "call", "rb"}',
+                           "VIEW View\nINVARIANT Agree\n")}
     for d in (D1, D2):
-        res = expect_violation(run_tlc("seq/Handles.tla",
-                                       handles_cfg("Spec", one, K1, UK, C1, 3, 6, '{"%s"}' % d, SH_CORE,
-                                                   "VIEW View\nINVARIANT Agree\n"),
-                                       ctx.scratch, workers=4, timeout=600), "Agree", f"control: {d} alone")
+        res = expect_violation(run_tlc("seq/Handles.tla", ctl[d], ctx.scratch, workers=4, timeout=600),
+                               "Agree", f"control: {d} alone")
         ctx.add_tlc(res)
-    # (d) workflow level
-    nruns = ctx.pick(3, 4)
-    wres = expect_clean(run_tlc("seq/HandlesWf.tla",
-                                wf_cfg("WSpec", ALL_DEV, 3, nruns,
-                                       "VIEW WView\nINVARIANT AgreeF\nINVARIANT NeverReplayInvalidF\n"
-                                       "INVARIANT AsBuiltUnlessFired\nINVARIANT OnlyForkEdge\n"
-                                       "PROPERTY NoFastRevertF\n"),
-                                ctx.scratch, timeout=1500), "HandlesWf invariants")
-    ctx.add_tlc(wres)
+    # (c) workflow level: every edit/revert history
+    winv = ("VIEW WView\nINVARIANT AgreeF\nINVARIANT NeverReplayInvalidF\nINVARIANT AsBuiltUnlessFired\n"
+            "INVARIANT OnlyForkEdge\nPROPERTY NoFastRevertF\n")
+    for stages, nruns in ctx.pick([(2, 4), (3, 2)], [(3, 4)]):
+        wres = expect_clean(run_tlc("seq/HandlesWf.tla", wf_cfg("WSpec", ALL_DEV, stages, nruns, winv),
+                                    ctx.scratch, workers=ctx.pick(8, "auto"), timeout=1500),
+                            f"HandlesWf invariants ({stages} stages, {nruns} runs)")
+        ctx.add_tlc(wres)
+        _dbg(ctx, f"workflow model {stages} stages {nruns} runs: {wres.distinct} states")
     res = expect_violation(run_tlc("seq/HandlesWf.tla",
-                                   wf_cfg("WSpec", '{"%s"}' % D1, 3, 3, "VIEW WView\nINVARIANT NeverReplayInvalidA\n"),
+                                   wf_cfg("WSpec", '{"%s"}' % D1, 2, 3, "VIEW WView\nINVARIANT NeverReplayInvalidA\n"),
                                    ctx.scratch, workers=4, timeout=600),
                            "NeverReplayInvalidA", "control: replay of an invalidated state through " + D1)
     ctx.add_tlc(res)
@@ -550,12 +550,12 @@ def run(ctx: Ctx) -> None:
     backend = new_backend()
     stats: dict = {}
     g = run_tlc("seq/Handles_Gen.tla",
-                handles_cfg("GSpec", one, K1, UK, C2, 3, 3, ALL_DEV, SH_ALL, "INVARIANT Emit\n"),
+                handles_cfg("GSpec", one, K1, UK, ctx.pick(C1, C2), 3, 3, ALL_DEV, SH_ALL, ""),
                 ctx.scratch, workers=4, timeout=900)
     ctx.require(g.ok, f"Handles_Gen exhaustive failed: {g.error} {g.violated}")
     ctx.add_tlc(g)
     behs = g.recs("BEH")
-    ctx.require(len(behs) > 500, f"too few behaviours from TLC: {len(behs)}")
+    ctx.require(len(behs) > 200, f"too few behaviours from TLC: {len(behs)}")
     for n, b in enumerate(behs):
         replay_behaviour(ctx, rep, backend, b, f"x{n}", "tlc-exhaustive-3", stats)
         ctx.count_eval()
@@ -564,11 +564,11 @@ def run(ctx: Ctx) -> None:
     ctx.sample({"source": "tlc-exhaustive", "behaviour": [s["op"] for s in behs[len(behs) // 2]]})
 
     # ---- 3. spec -> code: long simulated behaviours ---------------------------------------------
-    nsim = ctx.pick(900, 6000)
+    nsim = ctx.pick(150, 2500)
     depth = ctx.pick(6, 8)
-    scfg = handles_cfg("GSpec", two, '{"1", "2"}', '{"a", "b"}', C2, 4, depth, ALL_DEV, SH_WIDE, "INVARIANT Emit\n")
+    scfg = handles_cfg("GSpec", two, K1, UK, C2, 4, depth, ALL_DEV, ctx.pick(SH_MID, SH_WIDE), "")
     sres = run_tlc("seq/Handles_Gen.tla", scfg, ctx.scratch, workers=1, simulate=f"num={nsim}",
-                   depth=depth + 1, seed=ctx.seed + 1, timeout=1500)
+                   depth=depth + 2, seed=ctx.seed + 1, timeout=1500)
     ctx.require(sres.error is None and not sres.violated, f"simulate failed: {sres.error} {sres.violated}")
     ctx.add_tlc(sres)
     sbehs = sres.recs("BEH")
@@ -583,7 +583,7 @@ def run(ctx: Ctx) -> None:
     ctx.note("asbuilt_drift", stats.get("ok-drift", 0))
 
     # ---- 4. code -> spec: random executions validated by TLC -------------------------------------
-    ntr = ctx.pick(250, 3000)
+    ntr = ctx.pick(150, 3000)
     traces = [gen_random_trace(ctx.rng, backend, f"r{n}", ctx.rng.randint(6, 16)) for n in range(ntr)]
     # negative control: drop one state from one observed valid set; TLC must flag exactly that step
     src = next(t for t in traces if len(t) >= 5 and len(t[3]["obs"]) >= 2)
@@ -608,18 +608,22 @@ def run(ctx: Ctx) -> None:
     ctx.sample({"source": "recorded-trace", "trace": traces[0][:5]})
 
     # ---- 5. workflow histories through a real Scheduler -------------------------------------------
-    wg = run_tlc("seq/HandlesWf_Gen.tla", wf_cfg("WGSpec", ALL_DEV, 3, 3, "INVARIANT WEmit\n"),
-                 ctx.scratch, workers=4, timeout=900)
-    ctx.require(wg.ok, f"HandlesWf_Gen failed: {wg.error} {wg.violated}")
-    ctx.add_tlc(wg)
-    wbehs = wg.recs("WBEH")
-    ctx.require(len(wbehs) >= 1000, f"too few workflow behaviours: {len(wbehs)}")
+    wbehs = []
+    for stages, sim in ctx.pick([(2, None), (3, "num=40")], [(3, None)]):
+        wg = run_tlc("seq/HandlesWf_Gen.tla", wf_cfg("WGSpec", ALL_DEV, stages, 3, ""), ctx.scratch,
+                     workers=1 if sim else 4, simulate=sim, depth=6 if sim else None,
+                     seed=(ctx.seed + 2) if sim else None, timeout=900)
+        ctx.require(wg.error is None and not wg.violated, f"HandlesWf_Gen failed: {wg.error} {wg.violated}")
+        ctx.add_tlc(wg)
+        wbehs += wg.recs("WBEH")
+    ctx.require(len(wbehs) >= 250, f"too few workflow behaviours: {len(wbehs)}")
     # all histories on which the as-built model leaves the reference are candidates; sample both classes
     dev_h = [w for w in wbehs if any(r["exA"] != r["exF"] for r in w["runs"])]
     plain_h = [w for w in wbehs if not any(r["exA"] != r["exF"] for r in w["runs"])]
     ctx.rng.shuffle(dev_h)
     ctx.rng.shuffle(plain_h)
-    chosen = dev_h[: ctx.pick(12, 150)] + plain_h[: ctx.pick(28, 450)]
+    three = [w for w in wbehs if len(w["kinds"]) == 3][: ctx.pick(20, 0)]
+    chosen = dev_h[: ctx.pick(8, 150)] + plain_h[: ctx.pick(12, 450)] + three
     sched = new_scheduler()
     wstats: dict = {}
     for n, wb in enumerate(chosen):
